@@ -450,7 +450,7 @@ func (v *storeView) pod(name string) *podView {
 // ---------------------------------------------------------------- foreign actors
 
 // Foreign updates: writes by OTHER actors (pod-group-assigner / admin / scheduler) straight to the store.
-var foreignKinds = []string{"queue", "queue-spec-only", "queue-label-only", "markUnschedulable", "schedulingBackoff", "nodepool", "scheduler"}
+var foreignKinds = []string{"queue", "queue-spec-only", "queue-label-only", "markUnschedulable", "schedulingBackoff", "nodepool", "nodepool-removed", "scheduler"}
 
 const (
 	foreignQueue    = "q-foreign"
@@ -486,6 +486,9 @@ func (w *world) foreign(kind, pgName string) error {
 		g.Spec.SchedulingBackoff = &n
 	case "nodepool":
 		g.Labels[nodePoolKey] = foreignNodePool
+	case "nodepool-removed":
+		// the owner of the node-pool label takes it off the group (or the group predates the label)
+		delete(g.Labels, nodePoolKey)
 	case "scheduler":
 		// what the scheduler's status updater writes: annotations on the object + the status sub-resource
 		g.Annotations[constants.LastStartTimeStamp] = "2020-01-01T00:00:00Z"
